@@ -151,9 +151,9 @@ def generate(ctx):
     for layers in ([1, 2, 3] if quick else [1, 2, 3, 5, 8]):
         for r in range(2 if quick else 4):
             phi = (rng.integers(1, 400, size=layers).astype(float) / 8).tolist()
-            if r == 1: phi[0] = 0.0                      # a layer with zero reference potential
+            if r == 1: phi = [0.0] + rng.integers(1, 60, size=layers - 1).astype(float).tolist()   # zero / integer-valued potentials
             dens = np.sort(rng.integers(8, 17, size=layers).astype(float) / 8).tolist()
-            for eta in (ETAS if not quick else [ETAS[int(i)] for i in rng.choice(6, size=3, replace=False)]):
+            for eta in ((ETAS + [0.0, 1e-3, -1e3]) if not quick else [ETAS[int(i)] for i in rng.choice(6, size=3, replace=False)] + [[0.0, 1e3, -1e-3][layers - 1]] * (r == 1)):
                 ctx.count(f'sw layers={layers}')
                 yield 'shallow', {'phi': phi, 'densities': dens, 'eta': eta, 'radius': [1.0, 2.0, 0.5][r % 3],
                                   'seed': int(rng.integers(0, 2 ** 31)), 'ncols': (8 if quick else 20)}
@@ -679,6 +679,31 @@ def r_shallow(ctx, a):
     ctx.oracle_close('shallow water: implicit_inverse(x - eta*implicit_terms(x)) = x (potential)', ipt, ph, scale=sc_i)
     ctx.oracle_close('shallow water, time-reversed: resolvent (divergence)', itd, d, scale=sc_i)
     ctx.oracle_close('shallow water, time-reversed: resolvent (potential)', itp, ph, scale=sc_i)
+    # forms of the step size and of the reference potential, purity, jit
+    import jax
+    forms = [('np.float64', np.float64(eta)), ('0-d array', np.array(eta))]
+    if float(eta) == int(eta): forms.append(('python int', int(eta)))
+    if float(np.float32(eta)) == eta: forms.append(('np.float32', np.float32(eta)))
+    for nm, e in forms:
+        iv = eq.implicit_inverse(y, e)
+        ctx.oracle_close(f'shallow water: step size given as {nm}', np.stack([np.asarray(iv.divergence), np.asarray(iv.potential)]),
+                         np.stack([idv, ipt]), scale=sc_i)
+    if (phi == np.round(phi)).all():
+        eqi = sw.ShallowWaterEquations(eq.coords, eq.physics_specs, None, phi.astype(np.int64))
+        ti_, ii_ = eqi.implicit_terms(st), eqi.implicit_inverse(y, eta)
+        ctx.oracle_close('shallow water: integer-typed reference potential',
+                         np.stack([np.asarray(ti_.potential), np.asarray(ii_.divergence), np.asarray(ii_.potential)]),
+                         np.stack([tp, idv, ipt]), scale=max(sc_i, sc_t))
+        ctx.count('sw integer reference potential')
+    again = eq.implicit_inverse(y, eta)
+    ctx.oracle('shallow water: repeated evaluation is bit-identical',
+               bool(np.array_equal(np.asarray(again.divergence), idv) and np.array_equal(np.asarray(again.potential), ipt)))
+    ij = jax.jit(lambda s_: eq.implicit_inverse(s_, eta))(y)
+    ctx.oracle_close('shallow water: jit(implicit_inverse) = implicit_inverse',
+                     np.stack([np.asarray(ij.divergence), np.asarray(ij.potential)]), np.stack([idv, ipt]), scale=sc_i)
+    zz = jax.tree_util.tree_map(jnp.zeros_like, st)
+    zi = eq.implicit_inverse(zz, eta); zt = eq.implicit_terms(zz)
+    ctx.exact('shallow water: state at rest', [float(np.abs(np.asarray(v)).max()) for v in (zt.divergence, zt.potential, zi.divergence, zi.potential)], [0.0] * 4)
     # linearity
     d2 = util.small_rationals(rng, d.shape); p2 = util.small_rationals(rng, d.shape)
     st2 = sw.State(jnp.asarray(vort), jnp.asarray(d2), jnp.asarray(p2))
@@ -690,5 +715,17 @@ def r_shallow(ctx, a):
                      scale=4 * sc_t)
 
 
-RUNNERS = {'weights': r_weights, 'matrix': r_matrix, 'solve': r_solve, 'wrappers': r_wrappers, 'shallow': r_shallow,
-           'robust': r_robust}
+def _guard(fn):
+    """An exception on a valid configuration is a failure of the property on that input (replayable)."""
+    import functools, traceback
+    @functools.wraps(fn)
+    def run(ctx, a):
+        try:
+            fn(ctx, a)
+        except Exception:
+            ctx.oracle('every valid configuration is handled without raising', False, traceback.format_exc()[-900:])
+    return run
+
+
+RUNNERS = {k: _guard(f) for k, f in {'weights': r_weights, 'matrix': r_matrix, 'solve': r_solve, 'wrappers': r_wrappers,
+                                      'shallow': r_shallow, 'robust': r_robust}.items()}
